@@ -309,6 +309,26 @@ theorem isPoll_of_isSub (q : Req) (h : isSub q = true) : isPoll q = false := by
 theorem isSub_of_isPoll (q : Req) (h : isPoll q = true) : isSub q = false := by
   cases q with | mk b t => cases b <;> simp_all [isSub, isPoll]
 
+/-- `processSubscribeRequest` as the current source dispatches (the chain of `Generated.subProcessChain`
+    written out): duplicate subscription, poll before subscription, subscription, poll, anything else. -/
+def processHand (dev : Dev) (st : SState) (msg : Req) : SState × List Out × Option Err :=
+  if isSub msg && st.req.isSome then (st, [], some .duplicate)
+  else if isPoll msg && st.req.isNone then (st, [], some .notYet)
+  else if isSub msg then
+    match split msg with
+    | .ok (.ok m) => ({ req := some msg, treqs := m }, m.flatMap (forward dev), none)
+    | .ok (.error e) => ({ req := some msg, treqs := [] }, [], some e)
+    | .error _ => ({ req := some msg, treqs := [] }, [], some .noTarget)
+  else if isPoll msg then (st, st.treqs.flatMap (pollOne dev), none)
+  else (st, [], some .unknownType)
+
+/-- the interpreter on the extracted chain is that dispatch. -/
+theorem process_eq (dev : Dev) (st : SState) (msg : Req) : process dev st msg = processHand dev st msg := by
+  unfold process processHand
+  cases hs : isSub msg <;> cases hp : isPoll msg <;> cases hh : st.req.isSome <;>
+    simp [Generated.subProcessChain, List.find?, atomHolds, refusalKind, doSubscribe, hs, hp, hh, Option.isNone_iff_eq_none] <;>
+    (first | rfl | (cases hr : st.req <;> simp_all))
+
 /-- number of leading poll messages. -/
 def leadingPolls : List Event → Nat
   | .msg m :: rest => if isPoll m then leadingPolls rest + 1 else 0
@@ -338,11 +358,11 @@ theorem run_subscribed (dev : Dev) (r0 : Req) (m : TReqs) (evs : List Event) :
       by_cases hs : isSub q = true
       · have hp : isPoll q = false := by
           cases q with | mk b t => cases b <;> simp_all [isSub, isPoll]
-        simp [run, process, hs, hp, leadingPolls, retAfter]
+        simp [run, process_eq, processHand, hs, hp, leadingPolls, retAfter]
       · have hs' : isSub q = false := by simpa using hs
         by_cases hp : isPoll q = true
-        · simp [run, process, hs', hp, leadingPolls, retAfter, ih, List.replicate_succ]
+        · simp [run, process_eq, processHand, hs', hp, leadingPolls, retAfter, ih, List.replicate_succ]
         · have hp' : isPoll q = false := by simpa using hp
-          simp [run, process, hs', hp', leadingPolls, retAfter]
+          simp [run, process_eq, processHand, hs', hp', leadingPolls, retAfter]
 
 end OnosVerif.Subscribe
